@@ -14,6 +14,11 @@ By    == [f1 |-> "x", f2 |-> "-", own |-> "none", pol |-> "none"]
 Obj(own, f1) == [f1 |-> f1, f2 |-> "-", own |-> own, pol |-> "none"]
 
 PreBy   == {[Empty EXCEPT !["by1"] = By]}
+EmptyStore == [r \in Rev |-> NoRec]
+StoresEmpty == {EmptyStore}
+\* a release of chart cA deployed at revision 1 (ledger and cluster)
+StoresDeployed == {[EmptyStore EXCEPT ![1] = MkRec("deployed", "cA")]}
+PreDeployedA == {[Empty EXCEPT !["by1"] = By, !["r1"] = NewObj(ChartMan("cA")["r1"]), !["r2"] = NewObj(ChartMan("cA")["r2"])]}
 PreOwn  == {[Empty EXCEPT !["by1"] = By, ![r] = Obj(own, "q")] :
                r \in {"r1", "r3"}, own \in {"none", "othername", "otherns", "partial", "me"}}
            \cup PreBy
@@ -55,6 +60,9 @@ MenuOwn == Installs({"cA", "cB"}, B, F, F, B, F) \cup Upgrades({"cB", "cC"}, F, 
 \* hooks family (C12)
 MenuHooks == Installs({"cH", "cI"}, B, F, B, F, F) \cup Upgrades({"cH", "cI"}, F, F, {0}, B, F, F)
              \cup Rollbacks({0, 1}, {0}, B, F, F) \cup Uninstalls(B, B, F)
+\* concurrency family (C09): plain installs and upgrades racing on one release name
+MenuConc == Installs({"cA", "cB"}, F, F, F, F, F) \cup Upgrades({"cB", "cC"}, F, F, {0}, F, F, F)
+MenuConcX == MenuConc \cup Installs({"cB"}, {TRUE}, F, F, F, F) \cup Upgrades({"cB"}, F, F, {2}, F, F, F)
 MenuAll == MenuLedger \cup MenuCluster \cup MenuFault \cup MenuDry \cup MenuOwn \cup MenuHooks
 
 \* smaller menus for the exhaustive configurations (the generators use the large ones)
@@ -135,6 +143,21 @@ Act_C07_Stamped ==
 Act_C07_DeleteNamed ==
   [][\A p \in Procs : (last'.ev = "call" /\ last'.p = p) =>
        C07_DeleteNamed(last', NamedIn(pre[p].store) \cup NamedIn(store) \cup NamedByChart(op[p].u.chart))]_vars
+\* ---- C09 (Sequential = FALSE, KeepLog = TRUE)
+ResWrite(lab) == lab.kind = "res" /\ lab.verb \in {"POST", "PUT", "PATCH", "DELETE"}
+\* an operation that created no revision failed and touched no release resource
+Inv_C09_LoserClean ==
+  Ends(LAMBDA p : (op[p].u.kind \in {"install", "upgrade"} /\ op[p].crs = {}) =>
+                    (op[p].result # "ok" /\ \A i \in DOMAIN op[p].log : ~ResWrite(op[p].log[i])))
+\* no two running operations hold the same revision; a record is created only where none exists
+Inv_C09_DisjointRevisions == \A p, q \in Procs : p # q => op[p].crs \cap op[q].crs = {}
+Act_C09_CreateOnlyFresh ==
+  [][(last'.ev = "call" /\ last'.kind = "store" /\ last'.verb = "create" /\ last'.ok) =>
+       \E r \in Rev : store[r].st = "none" /\ store'[r].st # "none" /\ last'.id = ToString(r)]_vars
+\* once all have returned the ledger is well formed
+Quiescent == \A p \in Procs : pc[p] = "idle"
+Inv_C09_Quiescent == Quiescent => (C01_AtMostOneDeployed(store) \/ Known({"L1", "L2u", "L2r"}))
+
 \* ---- C12 (needs KeepLog = TRUE)
 SubOpM(p) == op[p].u.atomic /\ op[p].result # "ok"
 HookFaultM(p) == \E i \in DOMAIN op[p].log : op[p].log[i].inj /\ ~(op[p].log[i].kind = "wait" /\ op[p].log[i].verb = "watch")
